@@ -63,8 +63,21 @@ BasicLine == L("authorization", "Authorization", ": ", <<"Basic dXNlcjpwYXNz">>,
 ReqFramings == <<"none", "cl", "chunked1", "chunked2">>          \* chunked2: two chunks, an extension, a trailer field
 ResFramings == <<"cl", "chunked1", "chunked2", "close", "cl0">>
 \* body tokens with the decimal length of their bytes (the renderer asserts that its bytes have exactly this length)
-BodyTokens == <<"b_plain", "b_crlf_nul_http", "b_chunky", "b_one">>
-BodyLen(tok) == CASE tok = "b_plain" -> "10" [] tok = "b_crlf_nul_http" -> "29" [] tok = "b_chunky" -> "23" [] tok = "b_one" -> "1"
+BodyTokens == <<"b_plain", "b_crlf_nul_http", "b_chunky", "b_one", "b_form">>
+BodyLen(tok) == CASE tok = "b_plain" -> "10" [] tok = "b_crlf_nul_http" -> "29" [] tok = "b_chunky" -> "23" [] tok = "b_one" -> "1" [] tok = "b_form" -> "26"
+\* length and 31-bit FNV-1a digest of the token's bytes (what the recorder reports for the bytes handed to the body callbacks)
+BodyDigest(tok) == CASE tok = "b_plain" -> <<10, 776466081>> [] tok = "b_crlf_nul_http" -> <<29, 1444577307>> [] tok = "b_chunky" -> <<23, 329681382>>
+                     [] tok = "b_one" -> <<1, 2097959047>> [] tok = "b_form" -> <<26, 351694418>> [] OTHER -> <<0, 0>>
+\* b_form is "a=1&b=two+words&c=%41%2f&d", sent as application/x-www-form-urlencoded: its fields are body parameters
+FormParams == << <<"a", "1">>, <<"b", "two words">>, <<"c", "A/">>, <<"d", "">> >>
+\* response content codings; the coded streams are constants of the renderer, CodedLen is the decimal length of the coded bytes
+Codings == <<"none", "gzip", "none", "deflate", "none", "lzma", "none">>
+CodedLen(tok, c) ==
+  CASE c = "none" -> BodyLen(tok)
+    [] c = "gzip" -> (CASE tok = "b_plain" -> "30" [] tok = "b_crlf_nul_http" -> "49" [] tok = "b_chunky" -> "40" [] tok = "b_one" -> "21" [] tok = "b_form" -> "46")
+    [] c = "deflate" -> (CASE tok = "b_plain" -> "18" [] tok = "b_crlf_nul_http" -> "37" [] tok = "b_chunky" -> "28" [] tok = "b_one" -> "9" [] tok = "b_form" -> "34")
+    [] c = "lzma" -> (CASE tok = "b_plain" -> "34" [] tok = "b_crlf_nul_http" -> "53" [] tok = "b_chunky" -> "43" [] tok = "b_one" -> "24" [] tok = "b_form" -> "50")
+CodingNumber(c) == CASE c = "none" -> 1 [] c = "gzip" -> 2 [] c = "deflate" -> 3 [] c = "lzma" -> 4          \* enum htp_content_encoding_t
 Statuses == <<[code |-> 200, text |-> "200", reason |-> "OK", body |-> TRUE], [code |-> 404, text |-> "404", reason |-> "Not Found", body |-> TRUE],
               [code |-> 204, text |-> "204", reason |-> "No Content", body |-> FALSE], [code |-> 304, text |-> "304", reason |-> "Not Modified", body |-> FALSE],
               [code |-> 201, text |-> "201", reason |-> "Created At Last", body |-> TRUE]>>
@@ -90,7 +103,8 @@ Response(i, m, last) ==
       fr == IF fr1 \in {"chunked1", "chunked2"} /\ Pick(Versions, i, 1, 5) = "HTTP/1.0" THEN "cl" ELSE fr1
   IN [st |-> st, v |-> Pick(Versions, i, 1, 5),
       lines |-> LineSeq(ResLines, Idx(Len(ResLines) + 1, i, 5, 37), Idx(Len(ResLines) + 1, i, 13, 3)),
-      fr |-> fr, body |-> Pick(BodyTokens, i, 11, 41)]
+      fr |-> fr, body |-> Pick(BodyTokens, i, 11, 41),
+      coding |-> IF fr \in {"cl", "chunked1", "chunked2", "close"} THEN Pick(Codings, i, 3, 47) ELSE "none"]
 \* an exchange of n messages derived from index i
 Exchange(i, n) == [k \in 1..n |-> LET q == Request(i + 101 * (k - 1), k = n) IN [req |-> q, res |-> Response(i + 57 * (k - 1), q.m, k = n)]]
 
@@ -107,16 +121,20 @@ Table(tbl, ls) ==
        IN IF hit = {} THEN Table(Append(tbl, [key |-> l.key, name |-> l.name, value |-> LineValue(l), repeated |-> FALSE]), Tail(ls))
           ELSE LET j == CHOOSE x \in hit : TRUE IN
                Table([tbl EXCEPT ![j].value = @ \o ", " \o LineValue(l), ![j].repeated = TRUE], Tail(ls))
-FramingLines(fr, body) ==
-  CASE fr = "cl" -> <<L("content-length", "Content-Length", ": ", <<BodyLen(body)>>, " ")>>
+FramingLines(fr, body, coding) ==
+  CASE fr = "cl" -> <<L("content-length", "Content-Length", ": ", <<CodedLen(body, coding)>>, " ")>>
     [] fr = "cl0" -> <<L("content-length", "Content-Length", ": ", <<"0">>, " ")>>
     [] fr \in {"chunked1", "chunked2"} -> <<L("transfer-encoding", "Transfer-Encoding", ": ", <<"chunked">>, " ")>>
     [] OTHER -> <<>>
+HasBody(fr) == fr \in {"cl", "chunked1", "chunked2", "close"}
+IsForm(q) == HasBody(q.fr) /\ q.body = "b_form"
+FormLine == L("content-type", "Content-Type", ": ", <<"application/x-www-form-urlencoded">>, " ")
+CodingLines(s) == IF s.coding = "none" THEN <<>> ELSE <<L("content-encoding", "Content-Encoding", ": ", <<s.coding>>, " ")>>
 TrailerLines(fr) == IF fr = "chunked2" THEN <<L("x-trailer", "X-Trailer", ": ", <<"t">>, " ")>> ELSE <<>>
 ReqWireLines(q) == <<L("host", "Host", ": ", <<q.hostv>>, " ")>> \o q.lines
-                   \o (IF q.cookie THEN <<CookieLine>> ELSE <<>>) \o (IF q.basic THEN <<BasicLine>> ELSE <<>>) \o FramingLines(q.fr, q.body)
-ResWireLines(s) == s.lines \o FramingLines(s.fr, s.body)
-HasBody(fr) == fr \in {"cl", "chunked1", "chunked2", "close"}
+                   \o (IF q.cookie THEN <<CookieLine>> ELSE <<>>) \o (IF q.basic THEN <<BasicLine>> ELSE <<>>)
+                   \o (IF IsForm(q) THEN <<FormLine>> ELSE <<>>) \o FramingLines(q.fr, q.body, "none")
+ResWireLines(s) == s.lines \o CodingLines(s) \o FramingLines(s.fr, s.body, s.coding)
 ExpectedTx(p) ==
   LET q == p.req  s == p.res IN
   [method |-> q.m, uri |-> q.t.raw, protocol |-> q.v,
@@ -126,12 +144,13 @@ ExpectedTx(p) ==
    port |-> IF q.t.host # None THEN q.t.portn ELSE q.hostp,
    scheme |-> q.t.scheme, user |-> q.t.user, pass |-> q.t.pass, uhost |-> q.t.host, uport |-> q.t.port,
    path |-> Some(q.t.path), npath |-> Some(q.t.npath), query |-> q.t.query, frag |-> q.t.frag,
-   qparams |-> q.t.params,
+   qparams |-> q.t.params \o (IF IsForm(q) THEN FormParams ELSE <<>>),      \* query parameters first, then the fields of a form body
    cookies |-> IF q.cookie THEN <<<<"sid", "abc123">>, <<"theme", "dark">>>> ELSE <<>>,
    auth_user |-> IF q.basic THEN Some("user") ELSE None, auth_pass |-> IF q.basic THEN Some("pass") ELSE None,
    req_body |-> IF HasBody(q.fr) THEN q.body ELSE "none", req_chunked |-> q.fr \in {"chunked1", "chunked2"},
    res_protocol |-> s.v, status |-> s.st.text, status_number |-> s.st.code, message |-> s.st.reason,
    res_headers |-> Table(<<>>, ResWireLines(s) \o TrailerLines(s.fr)),
-   res_body |-> IF HasBody(s.fr) THEN s.body ELSE "none", res_chunked |-> s.fr \in {"chunked1", "chunked2"}]
+   \* the entity body is the DECODED payload whatever the content coding
+   res_body |-> IF HasBody(s.fr) THEN s.body ELSE "none", res_chunked |-> s.fr \in {"chunked1", "chunked2"}, res_coding |-> s.coding]
 Expected(x) == [k \in 1..Len(x) |-> ExpectedTx(x[k])]
 =============================================================================
